@@ -193,11 +193,11 @@ def d4(chk, prog):
     for paired, min_depth, skip_som in itertools.product([False, True], [None, 20], [False, True]):
         W.reset()
         model = Model()
-        depths = [19, 20, 21, 30]
-        ndepths = [30, 19, 20, 21]
-        som = [False, False, True, False]
+        depths = [19, 20, 21, 30, None]          # the last record has no depth information at all (DP '.', no AD)
+        ndepths = [30, 19, 20, 21, None]
+        som = [False, False, True, False, False]
         rows = []
-        for i in range(4):
+        for i in range(5):
             r = ("chr1", 100 + i, 101 + i, "A", "C", som[i], Fr(1, 2), depths[i], 5)
             if paired:
                 r += (Fr(1, 2), ndepths[i], 7)
@@ -212,26 +212,33 @@ def d4(chk, prog):
         if out is None:
             continue
         keep = out.cols.get("__keep__")
-        kept = [k is True for k in keep.v] if keep is not None else [True] * 4
+        kept = [k is True for k in keep.v] if keep is not None else [True] * 5
         dd = ndepths if paired else depths
-        want = [(min_depth is None or dd[i] >= min_depth) and not (skip_som and som[i]) for i in range(4)]
+        want = [(min_depth is None or (dd[i] is not None and dd[i] >= min_depth)) and not (skip_som and som[i]) for i in range(5)]
         okf = all(same(out.cols["alt_freq"].v[i], Fr(5, depths[i])) for i in range(4)) and (not paired or all(same(out.cols["n_alt_freq"].v[i], Fr(7, ndepths[i])) for i in range(4)))
-        tb.cell(kept == want and okf, dict(paired=paired, min_depth=min_depth, skip_somatic=skip_som, kept=kept, want=want, depth_column="n_depth" if paired else "depth"))
+        tb.cell(kept == want and okf, dict(paired=paired, min_depth=min_depth, skip_somatic=skip_som, kept=kept, want=want, depth_column="n_depth" if paired else "depth",
+                                           note="a record without depth information counts as depth 0 and is dropped by a depth cut-off"))
     tb.done("read_vcf does not keep exactly the records with enough depth (in the normal, when paired) and without the SOMATIC flag when asked")
 
     fl = prog.fn("cnvlib.cmdutil.load_het_snps")
     tb2 = Table(chk, "vcf-filters", "load_het_snps: arguments to read, T-variant/N-reference drop, heterozygous selection", fl.loc(), fl.qn)
-    for paired in (True, False):
+    for paired, all_somatic in ((True, False), (False, False), (True, True)):
         W.reset()
         model = Model()
         seen = {}
         zy = [Fr(1, 2), 1, Fr(1, 2), 0, Fr(1, 2)]
         nz = [Fr(1, 2), 0, 0, 0, 1]
+        if all_somatic:
+            zy, nz = [Fr(1, 2), 1, Fr(1, 2), 1, Fr(1, 2)], [0, 0, 0, 0, 0]        # every record is tumour-variant / normal-reference
         rows = [dict(chromosome="chr1", start=i, end=i + 1, ref="A", alt="C", zygosity=zy[i], alt_freq=Term.sym(f"f{i}", 0, 1)) for i in range(5)]
         if paired:
             for i, r in enumerate(rows):
                 r["n_zygosity"] = nz[i]
                 r["n_alt_freq"] = Term.sym(f"nf{i}", 0, 1)
+        if all_somatic:
+            # all normal genotypes are 0/0, so zygosity is re-derived from the frequencies (0.25 / 0.75 cut-offs): tumour het, normal reference
+            for r in rows:
+                r["alt_freq"], r["n_alt_freq"] = Fr(1, 2), Fr(0)
         varr = make_ga("VariantArray", rows, {"sample_id": "T"}, index="any", exact=True)
 
         def read(it, fname, fmt=None, seen=seen, **kw):
@@ -239,17 +246,19 @@ def d4(chk, prog):
             return varr
         model.prims["skgenome.tabio.read"] = read
         it = Interp(prog, model)
-        out = tb2.guard(lambda: it.run(fl.qn, ["x.vcf", "T", "N", 33, None, False]), f"paired={paired}")
+        out = tb2.guard(lambda: it.run(fl.qn, ["x.vcf", "T", "N", 33, None, False]), f"paired={paired} all_somatic={all_somatic}")
         if out is None:
             continue
         rd = seen.get("read", (None, None, {}))
         ok = rd[0] == "x.vcf" and rd[1] == "vcf" and rd[2] == dict(sample_id="T", normal_id="N", min_depth=33, skip_somatic=True)
         got = [int(T(x).cval()) for x in out.data.cols["start"].v]
-        if paired:
+        if all_somatic:
+            want = []
+        elif paired:
             want = [i for i in range(5) if not (zy[i] != 0 and nz[i] == 0) and nz[i] not in (0, 1)]
         else:
             want = [i for i in range(5) if zy[i] not in (0, 1)]
-        tb2.cell(ok and got == want, dict(paired=paired, read_args=repr(rd[2]), kept=got, want=want))
+        tb2.cell(ok and got == want, dict(paired=paired, every_record_somatic_by_genotype=all_somatic, read_args=repr(rd[2]), kept=got, want=want))
     tb2.done("load_het_snps does not keep exactly the germline-heterozygous records (after the depth / somatic filters)")
 
 
